@@ -836,7 +836,7 @@ def c33_run(prop, tier, seed):
     for k, c in enumerate(cases):
         cc = c["c"]
         scen.append({"name": f"C33-{k}", "family": "dispatch", "seed": seed, "frag": 1344, "case": c,
-                     "steps": [{"do": "dispatch_case", "status": cc["k"], "em": cc["em"], "gm": cc["gm"], "pm": cc["pm"], "dor": cc["dor"], "id": k}]})
+                     "steps": [{"do": "dispatch_case", "status": cc["k"], "em": cc["em"], "gm": cc["gm"], "pm": cc["pm"], "dor": cc["dor"], "how": cc.get("how", "create"), "id": k}]})
     runs = simcheck.run_sim_batch(scen, wd, "c33", jobs=4)
     violations, known_hits = [], []
     checked = nontrivial = 0
@@ -869,7 +869,7 @@ def c33_run(prop, tier, seed):
             nontrivial += 1
         wrong = [x for x in calls if x != (want_level, want_kind)]
         right = [x for x in calls if x == (want_level, want_kind)]
-        base = f"Dispatch:{k}:{'dor' if c['c']['dor'] else 'mask'}"
+        base = f"Dispatch:{k}:{'dor' if c['c']['dor'] else 'mask'}:{c['c'].get('how', 'create')}"
         if wrong:
             report(f"{base}:delivered-to-wrong-listener:{wrong[0][0]}",
                    f"{k} masks em={c['c']['em']} gm={c['c']['gm']} pm={c['c']['pm']} dor={c['c']['dor']}: expected {want_level}/{want_kind}, also delivered to {sorted(set(wrong))}",
